@@ -317,6 +317,7 @@ func gsub(t *rt.Thread, c *rt.GoCont) (rt.Cont, error) {
 		si         int             // Index in s where to start finding the next match
 		sj         int             // Index in s of the first byte not yet copied
 		sb         strings.Builder // Build the result string into this
+		subst      bool            // True once a substitution has been written to sb
 		matchCount int64
 		allowEmpty = true
 	)
@@ -347,6 +348,7 @@ func gsub(t *rt.Thread, c *rt.GoCont) (rt.Cont, error) {
 				_, _ = sb.WriteString(s[sj:start])
 				_, _ = sb.WriteString(sub)
 				sj = end
+				subst = true
 			}
 		}
 		allowEmpty = start >= end
@@ -362,8 +364,9 @@ func gsub(t *rt.Thread, c *rt.GoCont) (rt.Cont, error) {
 	}
 	var res rt.Value
 	switch {
-	case sb.Len() == 0:
-		// We return the input string to save an allocation.
+	case !subst:
+		// Nothing was substituted: we return the input string to save an
+		// allocation.
 		res = c.Arg(0)
 	case sj < len(s):
 		t.RequireBytes(len(s) - sj)
